@@ -452,6 +452,79 @@ theorem C16_metrics_old_counterexample :
     ∃ s, ({} : Metrics).run false [.goroutine, .shutdown, .complete, .goroutine] = some s ∧ s.stopDone = true ∧ s.bound = true := by
   exact ⟨_, rfl, rfl, rfl⟩
 
+/-! ## requests that reach a handler while the HTTP frontend is being stopped (D36) -/
+
+def HLate.Good (s : HLate) : Prop := s.orphans = 0 ∧ (s.stopDone = true → s.stopBegun = true ∧ s.tracked = 0)
+
+theorem HLate.good_step (s s' : HLate) (e : LEv) (h : s.Good) (hs : s.step true e = some s') : s'.Good := by
+  obtain ⟨sb, tr, orp, sd⟩ := s
+  obtain ⟨ho, hd⟩ := h
+  simp only at ho hd
+  subst ho
+  cases e with
+  | request late =>
+    simp only [HLate.step, if_true] at hs
+    split at hs
+    · cases hs
+    · rename_i hb
+      cases hs
+      refine ⟨rfl, ?_⟩
+      intro hsd
+      have := (hd hsd).1
+      simp_all
+  | done orphan =>
+    simp only [HLate.step] at hs
+    split at hs
+    · simp at hs
+    · split at hs
+      · cases hs
+      · cases hs
+        refine ⟨rfl, ?_⟩
+        intro hsd
+        have := hd hsd
+        exact ⟨this.1, by simp only [this.2]⟩
+  | stopBegin =>
+    simp only [HLate.step] at hs
+    split at hs
+    · cases hs
+    · cases hs
+      exact ⟨rfl, fun hsd => ⟨rfl, (hd hsd).2⟩⟩
+  | stopFinish =>
+    simp only [HLate.step] at hs
+    split at hs
+    · rename_i hc
+      cases hs
+      simp only [Bool.and_eq_true, decide_eq_true_eq] at hc
+      exact ⟨rfl, fun _ => ⟨hc.1.1, hc.2⟩⟩
+    · cases hs
+
+/-- **D36**: in the repaired frontend, whatever requests arrive at whatever moment — including those on connections
+`Shutdown` has written off — once Stop has completed no handler is running, and none can start -/
+theorem C16_http_gate_nothing_after_stop (evs : List LEv) (s : HLate)
+    (h : ({} : HLate).run true evs = some s) (hd : s.stopDone = true) :
+    s.tracked = 0 ∧ s.orphans = 0 ∧ ∀ late, s.step true (.request late) = none := by
+  have key : ∀ (evs : List LEv) (s0 s1 : HLate), s0.Good → s0.run true evs = some s1 → s1.Good := by
+    intro evs
+    induction evs with
+    | nil => intro s0 s1 hg hr; simp only [HLate.run, Option.some.injEq] at hr; subst hr; exact hg
+    | cons e rest ih =>
+      intro s0 s1 hg hr
+      simp only [HLate.run] at hr
+      split at hr
+      · rename_i s' hs'; exact ih s' s1 (HLate.good_step s0 s' e hg hs') hr
+      · cases hr
+  have hg := key evs {} s ⟨rfl, by intro hd; cases hd⟩ h
+  have := hg.2 hd
+  refine ⟨this.2, hg.1, ?_⟩
+  intro late
+  simp [HLate.step, this.1]
+
+/-- … and the frontend as it was: Stop begins, a request arrives on a connection `Shutdown` has written off, Stop
+completes — with that request's handler still running (what `life.http_late` observed) -/
+theorem C16_http_late_request_counterexample :
+    ∃ s, ({} : HLate).run false [.stopBegin, .request true, .stopFinish] = some s ∧ s.stopDone = true ∧ s.orphans = 1 := by
+  exact ⟨_, rfl, rfl, rfl⟩
+
 /-- **D37**: with the deadline, `Shutdown` returns whatever the clients do — from every state, within two steps -/
 theorem C16_metrics_shutdown_returns (c : MConns) (h : c.shutdownReturned = false) :
     ∃ evs c', evs.length ≤ 2 ∧ c.run true evs = some c' ∧ c'.shutdownReturned = true := by
